@@ -37,6 +37,18 @@ void collectCi(const AnalyserEquationAstPtr &a, std::vector<VariablePtr> &out, i
     collectCi(a->rightChild(), out, depth + 1);
 }
 
+void collectRates(const AnalyserEquationAstPtr &a, std::vector<VariablePtr> &out, int depth)
+{
+    if (a == nullptr || depth > 2000) {
+        return;
+    }
+    if (a->type() == AnalyserEquationAst::Type::DIFF && a->rightChild() != nullptr && a->rightChild()->variable() != nullptr) {
+        out.push_back(a->rightChild()->variable());
+    }
+    collectRates(a->leftChild(), out, depth + 1);
+    collectRates(a->rightChild(), out, depth + 1);
+}
+
 std::string varName(const VariablePtr &v)
 {
     if (v == nullptr) {
@@ -355,8 +367,9 @@ bool wellFormed(const AnalyserModelPtr &am, const ModelPtr &model, std::map<Vari
         if (e->ast() == nullptr) {
             return fail("C05.wf|equation-without-ast|" + AnalyserEquation::typeAsString(e->type()), "equation " + std::to_string(i) + " has no AST");
         }
-        std::vector<VariablePtr> read;
+        std::vector<VariablePtr> read, rates;
         collectCi(e->ast(), read, 0);
+        collectRates(e->ast(), rates, 0);
         auto own = e->variables();
         for (const auto &rv : read) {
             auto it = hclass.find(rv.get());
@@ -371,7 +384,8 @@ bool wellFormed(const AnalyserModelPtr &am, const ModelPtr &model, std::map<Vari
                 if (need != nullptr && std::find(deps.begin(), deps.end(), need) == deps.end()) {
                     // localisation token of a known finding: the variable's primary variable is not the one carrying its initial value
                     bool elsewhere = av->initialisingVariable() != nullptr && av->initialisingVariable() != av->variable();
-                    return fail("C05.wf|dependency-missing|" + AnalyserEquation::typeAsString(e->type()) + "-reads-" + AnalyserVariable::typeAsString(av->type()) + (elsewhere ? "|initialised-elsewhere" : ""),
+                    bool asRate = std::find(rates.begin(), rates.end(), rv) != rates.end();
+                    return fail("C05.wf|dependency-missing|" + AnalyserEquation::typeAsString(e->type()) + "-reads-" + (asRate ? "rate-of-" : "") + AnalyserVariable::typeAsString(av->type()) + (elsewhere ? "|initialised-elsewhere" : ""),
                                 "equation " + std::to_string(i) + " (" + AnalyserEquation::typeAsString(e->type()) + ") reads " + varName(rv) + " (" + AnalyserVariable::typeAsString(av->type()) + "), but equation " + std::to_string(eqPos[need.get()]) + ", which computes it, is not among its dependencies");
                 }
             }
@@ -383,9 +397,22 @@ bool wellFormed(const AnalyserModelPtr &am, const ModelPtr &model, std::map<Vari
         std::vector<int> colour(equations.size(), 0);
         std::function<bool(size_t)> visit = [&](size_t i) -> bool {
             colour[i] = 1;
+            std::vector<VariablePtr> rts;
+            collectRates(equations[i]->ast(), rts, 0);
             for (const auto &d : equations[i]->dependencies()) {
-                if (d->type() == AnalyserEquation::Type::NLA || d->type() == AnalyserEquation::Type::ODE) {
+                if (d->type() == AnalyserEquation::Type::NLA) {
                     continue;
+                }
+                if (d->type() == AnalyserEquation::Type::ODE) {
+                    // reading a state does not order an equation after the ODE, reading its rate does
+                    bool readsRate = false;
+                    for (const auto &rv : rts) {
+                        auto it = hclass.find(rv.get());
+                        readsRate = readsRate || (it != hclass.end() && d->variableCount() == 1 && avOfClass[static_cast<size_t>(it->second)] == d->variable(0));
+                    }
+                    if (!readsRate) {
+                        continue;
+                    }
                 }
                 size_t j = eqPos[d.get()];
                 if (colour[j] == 1) {
@@ -639,6 +666,17 @@ std::string checkTruth(const TM &m, const Obs &o, std::string &msg)
     // coherence of the reported roles with what each directly defined class reads
     for (size_t k = 0; k < m.classes.size(); ++k) {
         const TClass &t = m.classes[k];
+        if (t.role == GtRole::NLA) {
+            // whatever an NLA unknown is solved from: a computed constant cannot follow something that varies
+            for (int d : t.deps) {
+                const std::string &dr = o.role[static_cast<size_t>(d)];
+                if (o.role[k] == "computed_constant" && (dr == "algebraic" || dr == "state" || dr == "variable_of_integration")) {
+                    msg = "class " + std::to_string(k) + " (" + firstInstance(k) + ") is reported as a computed constant although the NLA system solved for it reads a variable reported as " + dr;
+                    return "C05.truth|role-coherence|nla-computed_constant-reads-" + dr;
+                }
+            }
+            continue;
+        }
         if (t.role != GtRole::COMPUTED_CONSTANT && t.role != GtRole::ALGEBRAIC) {
             continue;
         }
@@ -655,7 +693,9 @@ std::string checkTruth(const TM &m, const Obs &o, std::string &msg)
             msg = "class " + std::to_string(k) + " (" + firstInstance(k) + ") is reported as a computed constant although its defining equation reads a variable reported as " + which;
             return "C05.truth|role-coherence|computed_constant-reads-" + which + (readsGuessedUnknown(m, k) ? "|reader-of-guessed-unknown" : "");
         }
-        if (!readsVarying && o.role[k] == "algebraic") {
+        // (what is computed from the unknown of an NLA system may be algebraic even if that unknown only follows constants: it is
+        // not available before the system has been solved - the library's convention since d38edc2 - hence not for loose classes)
+        if (!readsVarying && o.role[k] == "algebraic" && !t.loose) {
             msg = "class " + std::to_string(k) + " (" + firstInstance(k) + ") is reported as algebraic although its defining equation reads only constants and computed constants";
             return "C05.truth|role-coherence|algebraic-reads-constants-only";
         }
